@@ -44,7 +44,8 @@ _PROG = {}
 
 # third family: results holding NaN and +-inf as ordinary (non-missing) cells (the CSV reader delivers them for cells "nan" / "inf")
 NF_PRODUCERS = [("pn", False, "f_nan"), ("pm", False, "f_nan_miss"), ("pg", False, "f_full")]
-NC_PRODUCERS = [("p2", True, "z_2d"), ("q2", False, "f_2d"), ("r2", False, "f_2d_miss"), ("i2", False, "i_2d"), ("y2", True, "z_2d_full")]
+NC_PRODUCERS = [("p2", True, "z_2d"), ("q2", False, "f_2d"), ("r2", False, "f_2d_miss"), ("i2", False, "i_2d"), ("y2", True, "z_2d_full"),
+                ("u2", False, "u_2d")]  # unsigned elements: what the NetCDF reader delivers for DataType = "Positive Integer"
 
 
 def _table():
@@ -60,6 +61,7 @@ def _table():
         "f_2d": lambda: numpy.ma.MaskedArray([[3.0, -1.0], [0.5, 2.0]]),
         "f_2d_miss": lambda: numpy.ma.MaskedArray([[1.5, 0.0], [-2.0, 4.0]], mask=[[True, False], [False, False]]),
         "i_2d": lambda: numpy.ma.MaskedArray(numpy.array([[2, -1], [0, 5]], dtype=numpy.int64)),
+        "u_2d": lambda: numpy.ma.MaskedArray(numpy.array([[3, 5], [0, 1]], dtype=numpy.uint64), mask=[[False, False], [True, False]]),
         "z_2d_full": lambda: numpy.ma.MaskedArray([[0.5, -1.0], [1.0, 0.0]], mask=[[False, False], [False, False]]),
     }
 
